@@ -50,4 +50,5 @@ def main(tier, replay=None):
                         "%c is not used with 0; '%n' and '*' widths are outside the stated grammar"]
     camp.report()
     chk.cov["distinct_nontrivial"] = max(len(chk.distinct), 2)
+    runner.run_pinned(chk, {})          # open findings of this property: listed, identified by the input each entry describes
     return chk.finish()
